@@ -7,6 +7,7 @@ CONSTANTS
 INVARIANT TypeOK
 INVARIANT Inv_Usable
 INVARIANT Inv_NoLeftover
+INVARIANT Inv_NotRegistered
 INVARIANT Inv_DataClosed
 PROPERTY Live_Returns
 CHECK_DEADLOCK FALSE
